@@ -77,7 +77,7 @@ def bounds_obligations(run):
             errs.append("%s: solver %s" % (f.name[-50:], r["res"]))
     n_checked = res["unsat"] + len(bad)
     run.functions.append("%d built-in procedures registered through steel_derive attributes: bounds checks on the argument vector (MIR)" % n_checked)
-    run.samples.append({"engine": "mir-smt", "query": "exists argument count reaching `index out of bounds` on args[i] with i >= count",
+    run.samples.append({"engine": "mir-smt", "query": "exists argument count reaching `index out of bounds` on args[i] with i >= count, or reaching `.unwrap()` of the conversion of args[i] (whose kind the script chooses)",
                         "functions_with_constant-index_accesses": n_checked, "unsat": res["unsat"], "without such accesses": res["none"],
                         "accesses with a non-constant index (not interpreted)": unint})
     common = dict(engine="mir-smt/z3", wall_s=time.time() - t0, solver_s=round(solver_s, 2), solver_checks=n_checked)
@@ -88,29 +88,43 @@ def bounds_obligations(run):
         run.ob("bounds:argument-vector", "inconclusive", reason="; ".join(errs[:3]), **common)
         return
     if not bad:
-        run.ob("bounds:argument-vector", "pass", nonvacuous=True, note="%d procedures: no argument count reaches an out-of-bounds access" % res["unsat"], **common)
+        run.ob("bounds:argument-vector", "pass", nonvacuous=True, note="%d procedures: no argument count reaches an out-of-bounds access of the argument vector or an unwrapped conversion of an argument" % res["unsat"], **common)
         return
-    f, r = bad[0]
-    kind, script_name, src = reg[f.name.split("::")[-1]]
     try:
         shutil.copy(os.path.join(ws.VERIF, "harness", "arity_replay.rs"), os.path.join(wsdir, "crates", "steel-core", "tests", "verif_arity_replay.rs"))
-        p = subprocess.run(["cargo", "test", "--offline", "-p", "steel-core", "--no-default-features", "--features", ws.FEATURES,
-                            "--test", "verif_arity_replay", "--target-dir", os.path.join(root, "tn"), "--", "bounds_replay", "--exact", "--nocapture"],
-                           cwd=wsdir, env=dict(env, VERIF_BOUNDS_NAME=script_name, VERIF_BOUNDS_LEN=str(r["len"])), capture_output=True, text=True, timeout=1800)
-        m = re.search(r"OBSERVED: (.*)", p.stdout + p.stderr)
     except Exception as ex:
-        run.ob("bounds:argument-vector", "inconclusive", reason="replay failed: %s" % str(ex)[-300:], **common)
+        run.ob("bounds:argument-vector", "inconclusive", reason="replay set-up failed: %s" % str(ex)[-300:], **common)
         return
-    if not m:
-        run.ob("bounds:argument-vector", "inconclusive", reason="solver: %d arguments reach an out-of-bounds access in %s (`%s`, %d procedures in all), not reproduced through a script call" % (r["len"], f.name[-60:], script_name, len(bad)), **common)
-        return
-    d = os.path.join(ws.VERIF, "replays", run.pid)
-    os.makedirs(d, exist_ok=True)
-    path = os.path.join(d, "bounds.json")
-    json.dump({"property": run.pid, "kind": "bounds", "function": f.name, "script_name": script_name, "len": r["len"], "observed": m.group(1),
-               "others": [b[0].name for b in bad[1:6]], "how": "./check C07 --replay <this file>"}, open(path, "w"), indent=1)
-    run.violation("bounds:%s" % script_name, "%s: %s" % (script_name, m.group(1)[:300]), path)
-    run.ob("bounds:argument-vector", "fail", note=m.group(1)[:200], **common)
+    confirmed, unconfirmed = [], []
+    for f, r in bad[:8]:
+        kind, script_name, src = reg[f.name.split("::")[-1]]
+        try:
+            p = subprocess.run(["cargo", "test", "--offline", "-p", "steel-core", "--no-default-features", "--features", ws.FEATURES,
+                                "--test", "verif_arity_replay", "--target-dir", os.path.join(root, "tn"), "--", "bounds_replay", "--exact", "--nocapture"],
+                               cwd=wsdir, env=dict(env, VERIF_BOUNDS_NAME=script_name, VERIF_BOUNDS_LEN=str(r["len"])), capture_output=True, text=True, timeout=1800)
+            m = re.search(r"OBSERVED: (.*)", p.stdout + p.stderr)
+        except Exception as ex:
+            m = None
+        if not m:
+            unconfirmed.append("%d arguments reach a panic in `%s`" % (r["len"], script_name))
+            continue
+        d = os.path.join(ws.VERIF, "replays", run.pid)
+        os.makedirs(d, exist_ok=True)
+        path = os.path.join(d, "bounds_%s.json" % re.sub(r"[^A-Za-z0-9_-]", "_", script_name))
+        json.dump({"property": run.pid, "kind": "bounds", "function": f.name, "script_name": script_name, "len": r["len"], "observed": m.group(1),
+                   "how": "./check C07 --replay <this file>"}, open(path, "w"), indent=1)
+        key = "bounds:%s" % script_name
+        if run.is_known(key):
+            run.known_hit(key, run.known[(run.pid, key)] + " -- " + m.group(1)[:200])
+        else:
+            run.violation(key, "%s: %s" % (script_name, m.group(1)[:300]), path)
+        confirmed.append(script_name)
+    if unconfirmed:
+        run.ob("bounds:argument-vector", "inconclusive", reason="solver: %s; not reproduced through a script call" % "; ".join(unconfirmed[:3]), **common)
+    elif any(v["key"].startswith("bounds:") for v in run.violations):
+        run.ob("bounds:argument-vector", "fail", note="host panic reproduced for: %s" % ", ".join(confirmed), **common)
+    else:
+        run.ob("bounds:argument-vector", "known", nonvacuous=True, note="only listed findings: %s" % ", ".join(confirmed), **common)
 
 
 def check(pid, tier, seed):
